@@ -284,7 +284,11 @@ func pureRule(c *Ctx, rule string, names ...string) {
 }
 
 func assignedOutsideInit(p *Program, g *ssa.Global) bool {
+	initOnly := p.initOnlyFuncs()
 	for _, fn := range p.SrcFuncs() {
+		if isInitFunc(fn.Name()) || initOnly[fn] {
+			continue
+		}
 		for _, f := range append([]*ssa.Function{fn}, fn.AnonFuncs...) {
 			for _, b := range f.Blocks {
 				for _, in := range b.Instrs {
@@ -978,6 +982,11 @@ func hasSyncType(t types.Type, depth int) bool {
 		if x.Obj().Pkg() != nil && (x.Obj().Pkg().Path() == "sync" || x.Obj().Pkg().Path() == "sync/atomic") {
 			return true
 		}
+		// immutable once built: their internal sync.Once / pools only make a
+		// lazily built automaton, never a different answer
+		if x.Obj().Pkg() != nil && (x.Obj().Pkg().Path() == "strings" && x.Obj().Name() == "Replacer" || x.Obj().Pkg().Path() == "regexp" && x.Obj().Name() == "Regexp") {
+			return false
+		}
 		return hasSyncType(x.Underlying(), depth+1)
 	case *types.Pointer:
 		return hasSyncType(x.Elem(), depth+1)
@@ -1019,8 +1028,9 @@ func elementWritten(p *Program, g *ssa.Global) bool {
 		}
 		return false
 	}
+	initOnly := p.initOnlyFuncs()
 	for _, fn := range p.SrcFuncs() {
-		if fn.Name() == "init" {
+		if isInitFunc(fn.Name()) || initOnly[fn] {
 			continue
 		}
 		for _, f := range append([]*ssa.Function{fn}, fn.AnonFuncs...) {
